@@ -2,7 +2,7 @@
    ops:  S <instr>*  |  T <dt>  |  X
    instr: p<m> | r | w<ms> | t<o><n> (waittill) | y<o><n>+ (waittill_any) | u<o><ms><n> (waittill_timeout)
         | v<o><ms><n>+ (waittill_any_timeout) | n<o><n> (notify)
-        | e<o><n> (endon) | d<o> (delete) | s<o> (spawn) | th[ <instr>* ] | wt[ <instr>* ]
+        | e<o><n> (endon) | d<o> (delete) | s<o> (spawn) | th[ <instr>* ] | wt[ <instr>* ] | wg[ <instr>* | <instr>* .. ] (group waitthread)
         | end | end<v>          (o = slot digit, n = a|b|c)
    prints per op  m <prints|-> idle=<0|1> ns=<scripts> nt=<threads> tm=<0|1> sz=<9 sizes> stale=<0|1>  (model)
    then  s ...  (specification) *)
@@ -10,19 +10,26 @@ let sname_of (c : char) : sname = match c with 'a' -> NA | 'b' -> NB | _ -> NC
 let digit (c : char) : n = n_of_int (Char.code c - 48)
 let num (w : string) (from : int) : int = int_of_string (String.sub w from (String.length w - from))
 
-(* parse a token list up to the matching "]" (or the end); returns (program, rest) *)
-let rec parse_prog (ws : string list) : instr list * string list =
+(* parse a token list up to the matching "]" or "|" (or the end); returns (program, rest, terminator) *)
+let rec parse_prog (ws : string list) : instr list * string list * string =
   match ws with
-  | [] -> ([], [])
-  | "]" :: rest -> ([], rest)
+  | [] -> ([], [], "")
+  | "]" :: rest -> ([], rest, "]")
+  | "|" :: rest -> ([], rest, "|")
   | w :: rest ->
-    let one (i : instr) = let (p, r) = parse_prog rest in (i :: p, r) in
+    let one (i : instr) = let (p, r, t) = parse_prog rest in (i :: p, r, t) in
     if w = "th[" then
-      let (body, r1) = parse_prog rest in
-      let (p, r2) = parse_prog r1 in (IThread body :: p, r2)
+      let (body, r1, _) = parse_prog rest in
+      let (p, r2, t) = parse_prog r1 in (IThread body :: p, r2, t)
     else if w = "wt[" then
-      let (body, r1) = parse_prog rest in
-      let (p, r2) = parse_prog r1 in (IWaitThread body :: p, r2)
+      let (body, r1, _) = parse_prog rest in
+      let (p, r2, t) = parse_prog r1 in (IWaitThread body :: p, r2, t)
+    else if w = "wg[" then
+      let rec bodies ws acc =
+        let (b, r, t) = parse_prog ws in
+        if t = "|" then bodies r (b :: acc) else (List.rev (b :: acc), r) in
+      let (bs, r1) = bodies rest [] in
+      let (p, r2, t) = parse_prog r1 in (IWaitThreadGroup bs :: p, r2, t)
     else if w = "end" then one (IEnd None)
     else if String.length w > 3 && String.sub w 0 3 = "end" then one (IEnd (Some (n_of_int (num w 3))))
     else if w = "r" then one IPrintR
@@ -43,7 +50,7 @@ let rec parse_prog (ws : string list) : instr list * string list =
 
 let parse_op (l : string) : op option =
   match words l with
-  | "S" :: toks -> Some (OStart (fst (parse_prog toks)))
+  | "S" :: toks -> let (p, _, _) = parse_prog toks in Some (OStart p)
   | ["T"; d] -> Some (OAdvance (n_of_int (int_of_string d)))
   | ["X"] -> Some OExecute
   | _ -> None
